@@ -97,6 +97,7 @@ fn entity(r: &mut Rd) -> EntitySpec {
         plan,
         faults: vec![],
         tail: vec![],
+        segments: 0,
     }
 }
 
@@ -184,6 +185,8 @@ pub fn accept_encoding(data: &[u8]) -> Vec<(&'static str, Fail)> {
         method: ["GET", "HEAD", "POST"][(m as usize / 64) % 3].to_string(),
         payload: stream::Payload::Mixed,
         payload_len: (m as u32) * 3,
+        earlier_levels: if m % 5 == 0 { vec![(m as u32 / 5) % 10] } else { vec![] },
+        chunk_last: m % 2 == 0,
     };
     collect("C17", c16::check_c17(&c, &mut acc), &mut out);
     out
